@@ -80,9 +80,10 @@ theorem opaqueVars_complete (vars : List RVarDef) : ∀ (k : Nat) (v : RVal), RV
       simp only [RVal.depth] at hd
       exact ih kv.2 (by omega) (h kv hkv) n hnx
 
-/-! ### the value-shape facts that the rules of family "values" establish (not modelled in ExecRules):
-    the type of the position is known, and an object literal given to an input object names only fields the
-    input object defines, each once (`UndefinedInputValue`, `UniqueInputFieldNames`) -/
+/-! ### what remains a hypothesis about a literal: the type of every position the check descends into is known
+    (`schema.types.get(name)` answers). For a schema whose input types are closed (`InputClosed`, what a valid
+    schema guarantees) this follows from the type of the argument alone: `litOk_of_closed`. That an object literal
+    names only defined fields, each once, is no longer assumed: `valueDiags` reports it (`keyDiags`). -/
 
 def litOk (s : RSchema) : Nat → Ty → RVal → Prop
   | 0, _, _ => True
@@ -95,10 +96,38 @@ def litOk (s : RSchema) : Nat → Ty → RVal → Prop
       | .obj kvs =>
         (match kind with
          | .inputObject fields =>
-           (kvs.map (·.1)).Nodup ∧
-             ∀ kv ∈ kvs, ∃ fd, fields.find? (·.name == kv.1) = some fd ∧ litOk s k fd.ty kv.2
+           ∀ kv ∈ kvs, ∀ fd, fields.find? (·.name == kv.1) = some fd → litOk s k fd.ty kv.2
          | _ => True)
       | _ => True
+
+/-- every input-object field of the schema has a type the schema knows -/
+def InputClosed (s : RSchema) : Prop :=
+  ∀ n fields, s.kindForValue n = some (.inputObject fields) → ∀ fd ∈ fields, (s.kindForValue fd.ty.innerNamedType).isSome
+
+theorem innerNamedType_itemTy (ty : Ty) : (itemTy ty).innerNamedType = ty.innerNamedType := by
+  cases ty <;> simp [itemTy, Ty.innerNamedType]
+
+theorem litOk_of_closed (s : RSchema) (hc : InputClosed s) : ∀ (k : Nat) (ty : Ty) (v : RVal),
+    (s.kindForValue ty.innerNamedType).isSome → litOk s k ty v := by
+  intro k
+  induction k with
+  | zero => intro ty v _; trivial
+  | succ k ih =>
+    intro ty v hk
+    simp only [litOk]
+    cases hkd : s.kindForValue ty.innerNamedType with
+    | none => rw [hkd] at hk; cases hk
+    | some kind =>
+      simp only
+      cases v with
+      | list xs => intro x _; exact ih _ x (by rw [innerNamedType_itemTy]; exact hk)
+      | obj kvs =>
+        cases kind with
+        | inputObject fields =>
+          intro kv _ fd hfd
+          exact ih _ kv.2 (hc _ fields hkd fd (List.mem_of_find?_eq_some hfd))
+        | _ => trivial
+      | _ => trivial
 
 theorem find_of_nodup_keys : ∀ (kvs : List (String × RVal)) (kv : String × RVal), (kvs.map (·.1)).Nodup → kv ∈ kvs →
     kvs.find? (·.1 == kv.1) = some kv
@@ -172,9 +201,10 @@ theorem valueDiags_complete (s : RSchema) (vars : List RVarDef) : ∀ (k : Nat) 
           | true => simp at h
         | inputObject fields =>
           simp only at h hl
-          obtain ⟨hnod, hall⟩ := hl
-          obtain ⟨fd, hfd, hlk⟩ := hall kv hkv
           simp only [List.append_eq_nil_iff, List.flatMap_eq_nil_iff] at h
+          obtain ⟨hnod, hall⟩ := (keyDiags_iff fields kvs).mp h.1
+          obtain ⟨fd, hfd⟩ := hall kv hkv
+          have hlk := hl kv hkv fd hfd
           replace h := h.2
           have hmem : fd ∈ fields := List.mem_of_find?_eq_some hfd
           have hname : fd.name = kv.1 := by simpa using List.find?_some hfd
